@@ -25,10 +25,10 @@ const half = 500 * time.Millisecond
 type op struct {
 	at   time.Duration
 	who  string // o1 | o2
-	kind string // once | loop | cron | badcron | cancel | clear | kill | restart | killrecv
+	kind string // once | loop | cron | badcron | cancel | clear | kill | restart | killrecv | kill-sched | restart-sched (the owner's OnKill handler schedules a Loop "k" to /r while it is dying / being restarted)
 	ref  string
 	d    time.Duration
-	recv string // self | r
+	recv string // self | r | o1 | o2 (another owner)
 }
 
 func (o op) String() string {
@@ -94,11 +94,15 @@ func model(ops []op, actual []time.Duration) (must, may map[string][]time.Durati
 			if j, ok := jobs[key]; ok {
 				cut(j, o.at)
 			}
-		case "clear", "kill", "restart":
+		case "clear", "kill", "restart", "kill-sched", "restart-sched":
 			for _, j := range jobs {
 				if j.owner == o.who {
 					cut(j, o.at)
 				}
+			}
+			if o.kind == "kill-sched" || o.kind == "restart-sched" {
+				// registered by the dying incarnation during its death sequence: its owner terminates (restarts) before any firing instant
+				jobs[o.who+"/k"] = &job{owner: o.who, ref: "k", recv: "r", kind: "loop"}
 			}
 		case "killrecv":
 			recvDeadAt["r"] = o.at
@@ -142,6 +146,7 @@ func scenario(name string, ops []op, bounds []int) *vexp.Scenario {
 					}
 				}
 			}
+			schedOnKillDone := map[string]bool{}
 			results := map[string]error{}
 			actual := make([]time.Duration, len(ops))
 			mkOwner := func(who string) *vsys.Script {
@@ -164,6 +169,8 @@ func scenario(name string, ops []op, bounds []int) *vexp.Scenario {
 					recv := ctx.Ref()
 					if o.recv == "r" {
 						recv = w.Ref("/r")
+					} else if o.recv == "o1" || o.recv == "o2" {
+						recv = w.Ref(pathOf(o.recv))
 					}
 					payload := vsys.Msg{ID: "job:" + name + "/" + o.ref}
 					var err error
@@ -180,10 +187,20 @@ func scenario(name string, ops []op, bounds []int) *vexp.Scenario {
 						err = ctx.Scheduler().Cancel(o.ref)
 					case "clear":
 						ctx.Scheduler().(*actor.Scheduler).Clear()
-					case "restart":
+					case "restart", "restart-sched":
 						panic("scripted failure -> restart")
 					}
 					results[fmt.Sprintf("%d", idx)] = err
+				}
+				s.OnKill = func(a *vsys.Act, ctx vivid.ActorContext, m *vivid.OnKill) {
+					for _, o := range ops {
+						if o.who == name && (o.kind == "kill-sched" || o.kind == "restart-sched") && !schedOnKillDone[name] {
+							schedOnKillDone[name] = true
+							if err := ctx.Scheduler().Loop(w.Ref("/r"), time.Second, vsys.Msg{ID: "job:" + name + "/k"}, vivid.WithSchedulerReference("k")); err != nil {
+								x.Logf("Loop from OnKill: %v", err)
+							}
+						}
+					}
 				}
 				return s
 			}
@@ -215,7 +232,7 @@ func scenario(name string, ops []op, bounds []int) *vexp.Scenario {
 					vrt.HoldTimers(true)
 				}
 				switch o.kind {
-				case "kill":
+				case "kill", "kill-sched":
 					w.Sys.Kill(w.Ref(pathOf(o.who)), false, "driver")
 				case "killrecv":
 					w.Sys.Kill(w.Ref("/r"), false, "driver")
@@ -232,7 +249,7 @@ func scenario(name string, ops []op, bounds []int) *vexp.Scenario {
 				}
 				// kills take effect when the target handles them
 				switch o.kind {
-				case "kill":
+				case "kill", "kill-sched":
 					for _, en := range w.EntriesOf(pathOf(o.who)) {
 						if en.Type == "OnKill" {
 							actual[i] = time.Duration(en.At)
@@ -259,6 +276,8 @@ func scenario(name string, ops []op, bounds []int) *vexp.Scenario {
 						want := pathOf(o.who)
 						if o.recv == "r" {
 							want = "/r"
+						} else if o.recv == "o1" || o.recv == "o2" {
+							want = pathOf(o.recv)
 						}
 						if d.recv != want {
 							x.Fail("delivered-to-receiver", "job %s was delivered to %s, its receiver is %s", d.job, d.recv, want)
@@ -300,7 +319,7 @@ func scenario(name string, ops []op, bounds []int) *vexp.Scenario {
 				for _, t := range may[k] {
 					allowed[t] = true
 				}
-				recvIsR := false
+				recvIsR := strings.HasSuffix(k, "/k")
 				for _, o := range ops {
 					if o.who+"/"+o.ref == k && o.recv == "r" {
 						recvIsR = true
@@ -412,6 +431,13 @@ func build(tier string) []*vexp.Scenario {
 	// the same reference on two actors with the same NAME under different parents
 	add("same-ref-same-name/cancel-one", op{0, "o1", "loop", "j", s, "self"}, op{0, "q1", "loop", "j", s, "self"}, op{s + half, "o1", "cancel", "j", 0, "self"})
 	add("same-ref-same-name/kill-one", op{0, "o1", "once", "j", 2 * s, "self"}, op{0, "q1", "once", "j", 3 * s, "self"}, op{s, "q1", "kill", "", 0, "self"})
+	// a Once of another actor, under the same reference, delivered to an owner of a live job: the owner's own job stays cancellable / clearable
+	for _, term := range []string{"cancel", "clear", "kill"} {
+		add("foreign-once-same-ref+"+term, op{0, "o1", "loop", "j", s, "self"}, op{0, "o2", "once", "j", half, "o1"}, op{s + half, "o1", term, "j", 0, "self"})
+	}
+	// jobs registered by the death sequence itself (OnKill handler) die with the incarnation too
+	add("sched-in-onkill/kill", op{0, "o1", "loop", "a", s, "self"}, op{s + half, "o1", "kill-sched", "", 0, "self"})
+	add("sched-in-onkill/restart", op{0, "o1", "loop", "a", s, "self"}, op{s + half, "o1", "restart-sched", "", 0, "self"})
 	// receiver dies, job lives
 	add("receiver-dies", op{0, "o1", "loop", "a", s, "r"}, op{s + half, "o1", "killrecv", "", 0, "r"}, op{3*s + half, "o1", "cancel", "a", 0, "r"})
 	return out
